@@ -98,6 +98,13 @@ func (r *Reader) ReadPacketUsing(buf []byte) (pkt Packet, err error) {
 			return Packet{}, drpc.ProtocolError.Wrap(err)
 
 		case !ok:
+			// only the bytes of the one incomplete frame count against the
+			// limit: complete frames still sitting in the buffer are going to
+			// be consumed no matter how the transport chunked them.
+			if len(r.curr)-maxFrameOverhead > r.opts.MaximumBufferSize {
+				return Packet{}, drpc.ProtocolError.New("data overflow")
+			}
+
 			// r.curr doesn't have enough data for a full frame, so prepend
 			// it to the read buffer if it is in the appropriate state.
 			if len(r.buf) == 0 {
@@ -120,10 +127,6 @@ func (r *Reader) ReadPacketUsing(buf []byte) (pkt Packet, err error) {
 				return Packet{}, drpc.ProtocolError.New("data overflow")
 			}
 			r.buf = r.buf[:ncap]
-
-			if len(r.buf)-maxFrameOverhead > r.opts.MaximumBufferSize {
-				return Packet{}, drpc.ProtocolError.New("data overflow")
-			}
 
 			r.curr = r.buf
 			continue
